@@ -1,6 +1,7 @@
 (* C03 - Access decisions stay correct across access-structure edits. *)
 From Coq Require Import List NArith Bool Arith Lia.
 From CC Require Import Policy Structure Keys KeysMachine WfProofs HierProofs EditLemmas EditHistory EditKeep.
+From CC Require Import DictModel DictProofs DictRevProofs.
 Import ListNotations.
 
 (* Every edit history keeps the structure well formed (distinct names at both levels, globally distinct ids, all ids
@@ -64,3 +65,25 @@ Print Assumptions C03_decaps_ignores_structure.
 Theorem C03_pinned_ids_refuted : exists es, ~ NoDup (issued_from false empty_structure es).
 Proof. exact pinned_ids_refuted. Qed.
 Print Assumptions C03_pinned_ids_refuted.
+
+(* ---- the ordered map behind hierarchical dimensions (data_struct::Dict: a vector of entries + a hash map of indices).
+   DictModel.v mirrors the index bookkeeping literally; for EVERY operation sequence the concrete representation behaves
+   as the ordered association list that Structure.v uses (same observations, same final content, invariant kept), no index
+   is ever out of bounds, and the variant that forgets to re-index the element right after a removed one is refuted. ---- *)
+Theorem C03_dict_refines_alist : forall (V : Type) (ops : list (dop V)),
+  observations (run_dict d_new ops) = observations (run_alist [] ops) /\
+  abs (fst (run_dict d_new ops)) = fst (run_alist [] ops) /\ dict_ok (fst (run_dict d_new ops)).
+Proof. exact (@DictProofs.dict_refines_alist). Qed.
+Print Assumptions C03_dict_refines_alist.
+
+Theorem C03_dict_reachable_sound : forall (V : Type) (ops : list (dop V)),
+  let d := fst (run_dict d_new ops) in
+  (forall k : str, d_oob k d = false) /\ d_len d = length (d_iter d) /\ NoDup (d_keys d).
+Proof. exact (@DictProofs.dict_reachable_sound). Qed.
+Print Assumptions C03_dict_reachable_sound.
+
+Theorem C03_dict_remove_skip_refuted : exists (d : dict N) (k : str),
+  dict_ok d /\ ~ dict_ok (fst (d_remove_gen shift_skip k d)) /\
+  (exists k' : str, d_get k' (fst (d_remove_gen shift_skip k d)) <> alookup k' (aremove k (abs d))).
+Proof. exact DictProofs.d_remove_shift_skip_refuted. Qed.
+Print Assumptions C03_dict_remove_skip_refuted.
